@@ -77,7 +77,7 @@ def run_bin(ctx, n, mode, param, scen=None, std='c++11'):
         interesting = lambda c: req <= set(present(open(c, 'rb').read()))
     else:
         interesting = lambda c: param[k['k']] if k['k'] < len(param) else False
-    steps, final, reason = run_ref(pass_, path, interesting, ctx.tmp, observe=observe)
+    steps, final, reason = run_ref(pass_, path, interesting, ctx.tmp, observe=observe, max_steps=(n + 2) * (n + 3) + 20)
     return steps, present(final), reason, read_log(scen), pass_
 
 
